@@ -12,6 +12,7 @@ from harness.common import driver_in, driver_out
 from autobahn.websocket.protocol import WebSocketProtocol as WSP
 
 KEY = b"\x01\x02\x03\x04"
+REASONS = [b"", b"bye", "tsch\u00fc\u00df".encode(), ("\u20ac" * 41).encode(), b"x" * 123, b"maintenance window"]       # token 0 = no reason
 
 
 def why_of(p):
@@ -50,6 +51,14 @@ def why_class(s):
     if "peer dropped" in s:
         return "peer-dropped"
     return "other:" + s[:40]
+
+
+def reason_token(r):
+    """the reason reported by a clean close as the index of the text the scripted peer sent (0 = none, -1 = something else)"""
+    if r in (None, "", b""):
+        return 0
+    b = r.encode("utf8") if isinstance(r, str) else bytes(r)
+    return REASONS.index(b) if b in REASONS else -1
 
 
 def due_of(call):
@@ -135,7 +144,8 @@ class Endpoint:
         for e in self.log[:self.lost_at]:          # transport calls made after connection_lost are not drops
             if e[0] == "drop" and not drop:
                 drop = "abort" if e[2] else "lose"
-        closes = [dict(clean=e[2], code=e[3] if isinstance(e[3], int) else 0) for e in self.log if e[0] == "onClose"]
+        closes = [dict(clean=e[2], code=e[3] if isinstance(e[3], int) else 0, reason=reason_token(e[4] if len(e) > 4 else None) if e[2] else 0)
+                  for e in self.log if e[0] == "onClose"]
         return dict(st=wsx.STATE[p.state], cbm=bool(p.closedByMe), fbm=bool(p.failedByMe), dbm=bool(p.droppedByMe),
                     clean=bool(p.wasClean), why=why_of(p), up=self.up, drop=drop,
                     nclose=self.counts["close"], pings=self.counts["ping"], ndata=self.counts["data"], npong=self.counts["pong"],
@@ -242,16 +252,18 @@ class Endpoint:
         elif name == "pclose":
             self.peer_closed = True
             rc = rng.choice([0, 1000, 1001, 3000, 4999, 1011, 1003])
-            pl = b"" if rc == 0 else struct.pack("!H", rc) + rng.choice([b"", b"bye", "tschüß".encode(), ("€" * 41).encode(), b"x" * 123])
+            rr = 0 if rc == 0 else rng.randrange(len(REASONS))
+            pl = b"" if rc == 0 else struct.pack("!H", rc) + REASONS[rr]
             self.feed(self.frame(8, pl))
-            self.ev("pclose", rc=rc)
+            self.ev("pclose", rc=rc, rr=rr)
         elif name == "pclosedata":
             # the peer's close frame and further frames arrive in one read: as if they had arrived one after the other
             self.peer_closed = True
             rc = rng.choice([0, 1000, 1001, 3000])
-            pl = b"" if rc == 0 else struct.pack("!H", rc) + rng.choice([b"", b"bye"])
+            rr = 0 if rc == 0 else rng.choice([0, 1])
+            pl = b"" if rc == 0 else struct.pack("!H", rc) + REASONS[rr]
             self.feed(self.frame(8, pl) + self.frame(rng.choice([1, 2]), b"late") + (self.frame(rng.choice([1, 2]), b"later") if rng.random() < 0.5 else b""))
-            self.ev("pclosedata", rc=rc)
+            self.ev("pclosedata", rc=rc, rr=rr)
         elif name == "pdata":
             self.feed(self.frame(rng.choice([1, 2]), b"data"))
             self.ev("pdata")
